@@ -505,10 +505,57 @@ def dfa_name_pairs(rng, quick):
     return pairs
 
 
+ODD_NAMES = ("Av2.3.1", "run.1", "a.b", ".hidden", "x.json", "with space", "dash-and_underscore", "UPPER.lower.3",
+             "sub.dir/plain", "sub.dir/dotted.name", "trailing.", "len3_good_len3", "\u00e9t\u00e9.v2")
+
+
+@check("C20.bisc_names")
+def bisc_names(item):
+    """what is written under a data-set name is what is read back under that name, whatever characters the name
+    contains (dots, spaces, a directory part) - and no OTHER file is consulted (decoys with a similar name)"""
+    info, n, dj, decoys = item
+    from permuta import Perm
+    from permuta.bisc.bisc import write_bisc_files
+
+    with _tempcwd():
+        d = os.path.dirname(info)
+        if d:
+            os.makedirs(d, exist_ok=True)
+        if decoys:
+            other = json.dumps({str(k): [list(t) for t in itertools.permutations(range(k))][:1] for k in range(n + 1)})
+            stem = os.path.basename(info)
+            cands = {info.rsplit(".", 1)[0] + ".json", info + ".json", stem.split(".")[0] + ".json"}
+            for part in ("good", "bad"):
+                full = f"{info}_{part}_len{n}"
+                cands.add(full.rsplit(".", 1)[0] + ".json" if "." in os.path.basename(full) else full + ".txt")
+            for c in cands:
+                if os.path.dirname(c) and not os.path.isdir(os.path.dirname(c)):
+                    continue
+                with open(c, "w") as fh:
+                    fh.write(other)
+        with contextlib.redirect_stdout(io.StringIO()):
+            write_bisc_files(n, DATASETS[dj], info)
+        for part in (0, 1):
+            path = f"{info}_{('good', 'bad')[part]}_len{n}"
+            if not os.path.isfile(path + ".json"):
+                return bad(f"a file {path}.json", sorted(os.listdir(d or ".")), "write_bisc_files did not create the documented file")
+            got, said = _read(path)
+            want = _want(n, DATASETS[dj])[part]
+            if not isinstance(got, dict) or _plain(got) != want:
+                return bad(want, f"{_plain(got) if isinstance(got, dict) else got!r} (printed {said.strip()!r})", f"read_bisc_file({path!r}) after write_bisc_files({n}, dataset {dj}, {info!r})")
+            if not all(type(p) is Perm for v in got.values() for p in v):
+                return bad("Perm objects", "other types", f"read of {path}")
+    return ok(True)
+
+
 def run(ctx):
     quick = ctx.tier == "quick"
     Perm = D.P()
     rng = D.subrng(ctx, "c20")
+    odd = [(info, n, dj, dec) for info in ODD_NAMES for n in (2, 3) for dj in range(len(DATASETS)) for dec in (False, True)]
+    ctx.run("C20.bisc_names", odd, chunk=12,
+            rule=f"{len(ODD_NAMES)} data-set names with dots, spaces, a directory part, a trailing dot ... x lengths 2, 3 x {len(DATASETS)} datasets, "
+                 "without and with decoy files of similar names: the documented file is created and read back")
 
     # ---- write / read sequences
     alphabet = [("write", ni, dj) for ni in range(len(NAMES)) for dj in range(len(DATASETS))]
